@@ -1284,9 +1284,51 @@ func (g *gen) root() map[string]any {
 	return map[string]any{"src": src}
 }
 
+// copies: functions documented to return a copy (sort, reverse) or a new value built from their
+// arguments; the result is stored under $.asm and then written into, slot by slot: $.src must stay as it
+// was for every list length (the reference semantics copy).
+func (ck *checker) copies() {
+	c := ck.c
+	idx := 1 << 20
+	for _, fn := range []string{"sort", "reverse"} {
+		for n := 0; n <= 4; n++ {
+			for _, kind := range []string{"int", "string"} {
+				list := make([]any, n)
+				for i := range list {
+					if kind == "int" {
+						list[i] = int64((i*7 + 3) % 5)
+					} else {
+						list[i] = string(rune('e' - i))
+					}
+				}
+				call := []any{fn, "$.src.l"}
+				if fn == "sort" {
+					call = append(call, "@")
+				}
+				for slot := -1; slot < n; slot++ {
+					idx++
+					if !c.Mine(idx) {
+						continue
+					}
+					plan := []any{"asm", []any{"set", "$.asm.x", call}}
+					if 0 <= slot {
+						plan = append(plan, []any{"set", fmt.Sprintf("$.asm.x[%d]", slot), int64(99)})
+					} else {
+						plan = append(plan, []any{"set", "$.asm.y", []any{"append", "$.asm.x", int64(98)}})
+					}
+					c.Cover("copy-family:" + fn)
+					root := map[string]any{"src": map[string]any{"l": dup(list)}}
+					ck.one(dup(plan).([]any), root, nil, "copy-family")
+				}
+			}
+		}
+	}
+}
+
 func run(c *mon.Ctx) {
 	ck := &checker{c: c}
 	ck.matrix()
+	ck.copies()
 	g := &gen{r: c.Rand("c20-plans")}
 	n := c.Pick(320000, 4800000) / c.Batches
 	for i := 0; i < n; i++ {
